@@ -431,3 +431,24 @@ def _views_of(mk, mask, pixel_scales, origin):
     if not np.array_equal(np.asarray(mk, dtype=bool), mask):
         return "parent mask modified"
     return None
+
+
+def _gen_wide(rng, tier):
+    # index-width escalation: one dimension beyond 2**16 (a strip of a long-slit / drift-scan frame); few unmasked pixels so that the
+    # pure-Python kernels stay fast; both orientations, unmasked pixels on both sides of column / row 65 536
+    for n, orient in ((65540, "wide"), (65540, "tall")):
+        m = np.ones((3, n), dtype=bool)
+        for x in (3, 4, 65534, 65535, 65536, 65537, n - 2):
+            m[1, x] = False
+        m[0, 65537] = False
+        yield {"mask": m if orient == "wide" else np.ascontiguousarray(m.T), "pixel_scales": (0.5, 2.0), "origin": (3.0, -2.0)}
+
+
+@bounded("C10", "edge-border-views-agree-beyond-65536", gen=_gen_wide, nontrivial=_nt_sets)
+def views_agree_wide(mask, pixel_scales, origin):
+    """C10: 'the slim-index, native-index, mask and coordinate-grid views of each set all denote the same pixels' for 'all boolean
+    masks of every shape' -- the same oracle as edge-border-views-agree on a 3 x 65 540 strip and its transpose (pixel indices that no
+    16-bit integer holds); bound: these two masks."""
+    import autoarray as aa
+    mk = aa.Mask2D(mask=mask.copy(), pixel_scales=pixel_scales, origin=origin)
+    return _views_of(mk, mask, pixel_scales, origin)
